@@ -423,6 +423,15 @@ def gen(rng, ctx):
         coords['incident_energy'] = sc.scalar(rng.uniform(5, 500), unit='meV', dtype='float32' if evdt == 'float32' and rng.random() < 0.5 else 'float64')
     elif mode == 'indirect':
         coords['final_energy'] = sc.array(dims=['pixel'], values=rng.uniform(1, 50, size=npix), unit='meV')
+    if not mode and tgt != 'energy' and rng.random() < 0.2:
+        # unrelated coordinates an elastic conversion must leave alone: the nominal incident energy and/or the
+        # analyser energies of the instrument
+        which = int(rng.integers(0, 3))
+        if which in (0, 2):
+            coords['incident_energy'] = sc.scalar(rng.uniform(5, 500), unit='meV')
+        if which in (1, 2):
+            coords['final_energy'] = sc.array(dims=['pixel'], values=rng.uniform(1, 50, size=npix), unit='meV')
+        ctx.hit('elastic target with bystander energy coordinates' + (' (both)' if which == 2 else ''))
     edges = bool(nt) and rng.random() < 0.7
     if edges:
         lo, hi = (float(np.min(vals)), float(np.max(vals))) if nbuf else (1.0, 2.0)
@@ -439,14 +448,15 @@ def gen(rng, ctx):
 
 def plan(tier, seed):
     n = 8 if tier == 'quick' else 16
-    return [{'cases': 40 if tier == 'quick' else 6000} for _ in range(n)]
+    return [{'cases': 300 if tier == 'quick' else 6000} for _ in range(n)]
 
 
 def requirements(tier):
     return {'events': {'convert(binned)': 200, 'twin': 200, 'edges': 10, 'gravity_twin': 50, 'pixel_twin': 500, 'nan_rule': 10},
             'forced': ['layout:' + x for x in LAYOUTS] + ['evdtype:float32', 'evdtype:int64', 'mode:direct', 'mode:indirect']
             + ['gravity wavelength unit:' + u for u in ('angstrom', 'nm', 'm')]
-            + ['binned gravity with per-pixel incident beams', 'hkl-family target'],
+            + ['binned gravity with per-pixel incident beams', 'hkl-family target',
+               'elastic target with bystander energy coordinates', 'elastic target with bystander energy coordinates (both)'],
             'counters': {'events_compared': 10000}}
 
 
